@@ -29,8 +29,12 @@ structure DSt where
   ids : List Nat := []
   held : Option Nat := none
   queue : List Nat := []
+  blocked : List (Nat × Item) := []
   /-- per sender: the events of its `HandleEventBatch` call that have not been handed to `HandleEvent` yet -/
   rest : List (Nat × List Item) := []
+  /-- `true`: this copy follows the property's spec of a redeploy (`redeploySpec`: batcher emptied, every call in
+  flight turned away) instead of the code's (`redeploy`); the only difference between the two copies -/
+  specMode : Bool := false
 
 def insSorted (k : Bytes) : List Bytes → List Bytes
   | [] => [k]
@@ -170,7 +174,7 @@ def step'' (st : DSt) : List String → DSt × String
     let (st, _) := doAct st (.cancel (natOr sr))
     (st, if inFlight then "cancelled" else "noop")
   | ["redeploy"] =>
-    let r := step st.s .redeploy
+    let r := if st.specMode && !st.s.stopped then redeploySpec st.s else step st.s .redeploy
     let st := (abortedBy r.2).foldl (fun st x => setRest st x []) { st with s := r.1, ids := newIds st.ids r.2 }
     (st, if r.2.isEmpty then "gone" else joinWith " " (showAll st.keys st.ids r.2))
   | ["go", sr] =>
@@ -189,9 +193,23 @@ def step'' (st : DSt) : List String → DSt × String
   | ["state"] => (st, if st.s.stopped then "gone" else showState st.s)
   | _ => (st, "bad-op")
 
+/-- a new call while the consumer is held: it blocks on the read lock (at most one per hold is started) -/
+def startBlocked (st : DSt) (h : HSt) (sr : Nat) (its : List Item) (n : Nat) : DSt × String :=
+  if its.length != n || its.isEmpty then (st, "bad-op") else
+  let st := { st with keys := addKeys st.keys its }
+  if sr < st.s.k then
+    match its with
+    | it :: tl =>
+      let r := hstep h (.base (.align sr it))
+      if r.1.blocked.length != st.blocked.length then
+        (setRest { st with blocked := r.1.blocked } sr tl, "blocked")
+      else (st, "consumer-held")
+    | [] => (st, "bad-op")
+  else (st, "bad-op")
+
 /-- ops around a held consumer go through `hstep` -/
 def step' (st : DSt) (ws : List String) : DSt × String :=
-  let h : HSt := { s := st.s, held := st.held, queue := st.queue }
+  let h : HSt := { s := st.s, held := st.held, queue := st.queue, blocked := st.blocked }
   match st.held, ws with
   | none, ["gohold", sr] =>
     if completing st.s (natOr sr) && (restOf st (natOr sr)).isEmpty then
@@ -208,20 +226,28 @@ def step' (st : DSt) (ws : List String) : DSt × String :=
   | some _, ["resume"] =>
     let r := hstep h .resume
     let shown := showAll st.keys st.ids (r.2.filter fun o => !isReleased o)
-    ({ st with s := r.1.s, held := none, queue := [], ids := newIds st.ids r.2 }, joinWith " " ("ok" :: shown))
-  | some _, ["send", sr, "ev", k, _, _] =>
-    -- the key universe grows even though the call is refused (the harness does the same)
-    ({ st with keys := insSorted (hexOr k) st.keys }, if natOr sr < st.s.k then "consumer-held" else "bad-op")
-  | some _, "sendb" :: sr :: ws =>
-    let its := ws.filterMap parseItem
-    if its.length != ws.length || its.isEmpty then (st, "bad-op") else
-    ({ st with keys := addKeys st.keys its }, if natOr sr < st.s.k then "consumer-held" else "bad-op")
+    ({ st with s := r.1.s, held := none, queue := [], blocked := [], ids := newIds st.ids r.2 },
+     joinWith " " ("ok" :: shown))
+  | some _, "send" :: sr :: ws => startBlocked st h (natOr sr) ([joinWith ":" ws].filterMap parseItem) 1
+  | some _, "sendb" :: sr :: ws => startBlocked st h (natOr sr) (ws.filterMap parseItem) ws.length
   | some _, _ => (st, "consumer-held")
+
+/-- the model of the code and the spec copy run side by side; they differ only from a redeploy on that found events
+in the batcher or calls past alignment (open finding D45), and only then is an answer tagged -/
+def stepBoth (st : DSt × DSt) (ws : List String) : (DSt × DSt) × String :=
+  let (c, xc) := step' st.1 ws
+  let (sp, xs) := step' st.2 ws
+  -- a redeploy that finds the batcher empty and no call past alignment ends the D45 situation: from here on the
+  -- two copies must agree again, so the spec copy restarts from the code copy (batch tokens may have drifted)
+  let clean := ws == ["redeploy"] && st.1.held.isNone && st.1.s.pending.isEmpty &&
+    (List.range st.1.s.k).all fun i => match st.1.s.slots i with | some (_, true) => false | _ => true
+  ((c, if clean then { c with specMode := true } else sp),
+   if xc == xs then xc else s!"{xc} #spec {xs} #kf D45")
 
 def handle (lines : Array String) (i : Nat) (out : Array String) : Nat × Array String :=
   let hdr := words (lines.getD (i - 1) "")
   let k := natOr (hdr.getD 2 "1")
   let b := natOr (hdr.getD 3 "1")
-  runLines step' { s := init k (max b 1) } lines i out
+  runLines stepBoth ({ s := init k (max b 1) }, { s := init k (max b 1), specMode := true }) lines i out
 
 end Driver.C02
